@@ -101,8 +101,11 @@ class TraceRun:
         if transform:
             # a linear transform installed before the first motion; the start is reached by a full absolute move so that
             # machine and builder agree (machine = transform(start)) from the beginning
-            g.transform.scale(2.0)
-            g.transform.rotate(30.0, "z")
+            if transform == "rot90":
+                g.transform.rotate(90.0, "z")
+            else:
+                g.transform.scale(2.0)
+                g.transform.rotate(30.0, "z")
             g.move(x=start[0], y=start[1], z=start[2])
         elif unknown:
             # a fresh builder: no axis position is known yet (the builder treats unknown coordinates as 0, and so does the
